@@ -495,3 +495,49 @@ package gorums
 //@     after set pend = false
 //@   ensures[C11.e] doneCalls == 1 && corr.done
 //@   ensures[C11.b] !pend
+
+// ---------------------------------------------------------------- encoding.go
+//
+// Decoding never panics, for ARBITRARY bytes b (no precondition on b): the only
+// preconditions are the ones newMessage establishes for the Message handed to grpc.
+//@ func newMessage
+//@   props C13
+//@   nopanic C13
+//@   ensures[C13.a] result != nil && result.Metadata != nil && result.msgType == msgType && result.Message == nil
+
+//@ func (Codec).gorumsUnmarshal
+//@   props C13
+//@   nopanic C13
+//@   requires msg != nil && msg.Metadata != nil
+//@   ghost mname Str = ""
+//@   ghost looked Int = 0
+//@   on call "protoregistry.GlobalFiles.FindDescriptorByName"
+//@     assert[C13.a] arg0 == msg.Metadata.Method
+//@     set mname = arg0
+//@     set looked = looked + 1
+//@   ensures[C13.c] err == nil ==> msg.Message != nil && looked == 1
+//@   ensures[C13.a] err == nil && msg.msgType == requestType ==> \
+//@       msgOfIface(msg.Message) != nil && typeOfNew(msgOfIface(msg.Message)) == msgTypeOf(fullNameOf(inputOf(descOf(mname))))
+//@   ensures[C13.a] err == nil && msg.msgType == responseType ==> \
+//@       msgOfIface(msg.Message) != nil && typeOfNew(msgOfIface(msg.Message)) == msgTypeOf(fullNameOf(outputOf(descOf(mname))))
+//@   ensures[C13.c] err == nil ==> msg.msgType == requestType || msg.msgType == responseType
+//@   ensures[C13.a] forall(x, "Bytes", forall(y, "Bytes", forall(r, "Bytes", \
+//@       old(bval(row(b), b)) == frame(x, frame(y, r)) && err == nil ==> \
+//@       decodedFrom(iface("*ordering.Metadata", msg.Metadata)) == x && decodedFrom(msg.Message) == y)))
+
+//@ func (Codec).gorumsMarshal
+//@   props C13
+//@   nopanic C13
+//@   requires msg != nil
+//@   ensures[C13.a] err == nil ==> bval(row(b), b) == \
+//@       frame(encOf(iface("*ordering.Metadata", msg.Metadata)), frame(encOf(msg.Message), bempty()))
+
+//@ func (Codec).Unmarshal
+//@   props C13
+//@   nopanic C13
+//@   requires typeis(m, "*Message") ==> m.(*Message) != nil && m.(*Message).Metadata != nil
+
+//@ func (Codec).Marshal
+//@   props C13
+//@   nopanic C13
+//@   requires typeis(m, "*Message") ==> m.(*Message) != nil
